@@ -438,7 +438,10 @@ void f_write_buffer (void) {
       bad_argument (sp, T_BUFFER | T_STRING | T_NUMBER, 3, F_WRITE_BUFFER);
     }
   free_svalue (sp--, "f_write_buffer");
-  free_string_svalue (--sp);
+  /* the first argument is a buffer here (a file name went to f_write_bytes() above):
+   * free_string_svalue() looks at a string subtype the slot does not have and never
+   * released it */
+  free_buffer ((--sp)->u.buf);
   put_number (i);
 }
 #endif
